@@ -135,7 +135,7 @@ class Scenario(object):
         nodes = []
         for (res, cmd, args), (cl, als) in zip(self.commands, self.lines):
             nodes.append(prog.enc_node(res, cmd, [(n, raw_of(v), al) for (n, v), al in zip(args, als)], cl))
-        ops = " ".join("run" if o[0] == "run" else "result " + enc_str(o[1]) for o in self.ops)
+        ops = " ".join("run" if o[0] == "run" else ("flag%d" % int(bool(o[1])) if o[0] == "flag" else "result " + enc_str(o[1])) for o in self.ops)
         return "prog %s %d %s %d %s %d %s" % (prog.enc_env(self.wd, list(exist_paths)), len(decl_classes), decls,
                                                  len(nodes), " ".join(nodes), len(self.ops), ops)
 
@@ -150,6 +150,7 @@ class Recorder(object):
         self.log = []        # "+name" / "-name"
         self.reads = []      # (consumer, producer, producer_finished_before_read, value_is_final_result)
         self.effects = []
+        self.flag = True     # environment condition under which `Fail = flag` bodies fail; switched by the op ("flag", b)
 
 
 def stub_execute(rec, original=None):
@@ -179,8 +180,11 @@ def stub_execute(rec, original=None):
         if fail == "mp":
             from mpilot.exceptions import ProgramError
             raise ProgramError(self.lineno, "deliberate failure")
-        if fail == "value":
+        if fail == "value" or (fail == "flagvalue" and rec.flag):
             raise ValueError("deliberate failure")
+        if fail == "flag" and rec.flag:
+            from mpilot.exceptions import ProgramError
+            raise ProgramError(self.lineno, "deliberate failure (environment)")
         from mpilot import params as P
         out = self.output
         if type(self).__name__ in ("W", "NoOut", "EEMSWrite", "PrintVars"):
@@ -259,6 +263,8 @@ def run_impl(sc, recursion_limit=None):
                     with contextlib.redirect_stdout(io.StringIO()):
                         if op[0] == "run":
                             p.run()
+                        elif op[0] == "flag":
+                            rec.flag = bool(op[1])
                         else:
                             p.commands[op[1]].result
                     res["ops"].append("ok")
